@@ -172,6 +172,20 @@ SWriteEntityAs(h, t, name) ==
           /\ Log([act |-> name, h |-> h, t |-> t, res |-> "ok"])
      ELSE Rejected([act |-> name, h |-> h, t |-> t])
 SWriteEntity(h, t) == SWriteEntityAs(h, t, "WriteEntity")
+\* write_entities with a list of two entities: all or nothing - if one of them does not fit the transaction the call is
+\* refused and NEITHER is staged (the order in the list does not matter)
+SWriteEntities(h1, h2, t) ==
+  /\ StateOpen /\ h1 # h2
+  /\ \A h \in {h1, h2} : m.D[h].present /\ Single(h) /\ m.S[h].present
+  /\ IF StateKind(h1) = tx.kind /\ StateKind(h2) = tx.kind
+     THEN /\ LET It(h) == [h |-> h, op |-> "upd", via |-> "ent", sver |-> m.S[h].sver + 1, dver |-> m.D[h].ver, tok |-> t]
+                 Put(s, h) == LET i == Idx(s, "h", h) IN IF i = 0 THEN Append(s, It(h)) ELSE [s EXCEPT ![i] = It(h)]
+             IN tx' = Op([tx EXCEPT !.s = Put(Put(@, h1), h2)])
+          /\ UNCHANGED <<m, ntx>>
+          /\ Log([act |-> "WriteEntities", hs |-> <<h1, h2>>, t |-> t, res |-> "ok"])
+     ELSE /\ (StateKind(h1) = tx.kind \/ StateKind(h2) = tx.kind)     \* at least one of them fits
+          /\ Rejected([act |-> "WriteEntities", hs |-> <<h1, h2>>, t |-> t,
+                       sit |-> {"W:refused:" \o tx.kind \o ":" \o (IF StateKind(h1) = tx.kind THEN "first-fits" ELSE "second-fits")}])
 \* the entity was obtained before earlier transactions changed the MDIB (versions and content of the object are old)
 SWriteKept(h, t) == kept = h /\ SWriteEntityAs(h, t, "WriteKeptEntity")
 
@@ -469,6 +483,7 @@ Next == \/ \E src \in {"getter", "entity", "result"}, t \in Tok : MutateCopy(src
         \/ \E src \in {"kept_upd", "kept_new"}, t \in Tok : kept # NoneP /\ m.D[kept].present /\ MutateCopy(src, t)
         \/ \E h \in KeepH : KeepEntity(h)
         \/ \E h \in H, t \in Tok : SWriteKept(h, t) \/ DWriteKept(h, t)
+        \/ \E h1, h2 \in H, t \in Tok : SWriteEntities(h1, h2, t)
         \/ \E d \in H, t \in Tok, nc \in CH \cup {NoneP}, dc \in CH \cup {NoneP} : DWriteEntityCtx(d, t, nc, dc)
         \/ \E k \in BeginKinds : Begin(k)
         \/ Abort \/ Commit
